@@ -41,7 +41,7 @@ def obsSender (h : HConfig) (t : Nat) : String :=
     match S.pc with
     | .idle => "i"
     | .loop => if h.aft t then "a" else if h.go t then (if S.rest = [] then "?" else "r") else "b"
-    | .rlocked => "s"
+    | .rlocked => if h.go t then "s" else "k"
     | .selected _ => "?"
     | .gc => "?"
   s!"S{t}={st}:{showResults S.results}"
@@ -94,6 +94,7 @@ def internalMoves (h : HConfig) : List Move :=
 /-- after a sender step: parked again at `beforeListener`, or back in the harness -/
 def afterMove (h : HConfig) (c' : Config) (m : Move) : HConfig :=
   match m with
+  | .sAcquire t => { h with c := c', go := upd h.go t false }   -- parked at `listener.send.locked`
   | .sRelease t | .sFinish t | .sCollect t =>
     let S := c'.ss t
     let parked := (S.pc = .loop ∧ S.rest ≠ []) ∨ S.pc = .idle
@@ -129,6 +130,7 @@ def macroStep (h : HConfig) : List String → Option HConfig
     if S.pc = .loop ∧ h.go t = false then
       if h.aft t then some { h with aft := upd h.aft t false, go := upd h.go t (decide (S.rest = [])) }
       else some { h with go := upd h.go t true }
+    else if S.pc = .rlocked ∧ h.go t = false then some { h with go := upd h.go t true }
     else none
   | ["cancel", l] => do
     let l ← parseNat? l
